@@ -80,7 +80,7 @@ theorem ukeep_parse (s : State) (b : Blk) : (parse s b).1.unresolved = s.unresol
   · have := ukeep_materialize s (s.getBlock b.id)
     split <;> simp_all
 
-theorem ukeep_build (s : State) (n : Nat) : (build s n).1.unresolved = s.unresolved := by
+theorem ukeep_build (s : State) (n : Nat) (c : Option Nat) : (build s n c).1.unresolved = s.unresolved := by
   unfold HyperModel.Snow.build
   dsimp only
   split
@@ -91,23 +91,27 @@ theorem ustep_passive {s s' : State} (hp : Passive s s') (hu : s'.unresolved = s
   obtain ⟨ev, h1, h2⟩ := hp.log
   exact UStep.of_quiet ev h1 (npr_quiet ev h2) hu
 
-theorem ustep_verify (s : State) (h : Nat) : UStep s (verify s h).1 := by
+theorem ustep_verify (s : State) (h : Nat) (c : Option Nat) : UStep s (verify s h c).1 := by
   unfold HyperModel.Snow.verify
   dsimp only
   split
   · exact UStep.same rfl rfl
   · split
-    · exact UStep.same rfl rfl
+    · split
+      · exact UStep.same rfl rfl
+      · exact UStep.refl s
     · split
       · exact UStep.refl s
       next p _ =>
         split
         · exact UStep.refl s
         · split
-          · exact UStep.emit s _ rfl
-          next out _ =>
-            exact UStep.of_quiet [.cVerify p.out (s.obj h).blk (chainVerify p.out (s.obj h).blk), .nVerified out]
-              (by simp [State.vbSet, State.emit, State.setObj]) rfl rfl
+          · exact UStep.refl s
+          · split
+            · exact UStep.emit s _ rfl
+            next out _ =>
+              exact UStep.of_quiet [.cVerify p.out (s.obj h).blk (chainVerify p.out (s.obj h).blk), .nVerified out]
+                (by simp [State.vbSet, State.emit, State.setObj]) rfl rfl
 
 theorem ustep_accept (s : State) (h : Nat) : UStep s (accept s h).1 := by
   unfold HyperModel.Snow.accept
@@ -154,9 +158,9 @@ theorem ustep_step (s : State) (op : Op)
   split
   · exact UStep.refl s
   · cases op with
-    | build n => exact ustep_passive (Passive.build s n) (ukeep_build s n)
+    | build n c => exact ustep_passive (Passive.build s n c) (ukeep_build s n c)
     | parse b => exact ustep_passive (Passive.parse s b) (ukeep_parse s b)
-    | verify h => dsimp only; split; exact ustep_verify s h; exact UStep.refl s
+    | verify h c => dsimp only; split; exact ustep_verify s h c; exact UStep.refl s
     | accept h => dsimp only; split; exact ustep_accept s h; exact UStep.refl s
     | reject h => dsimp only; split; exact ustep_reject s h; exact UStep.refl s
     | pref id => exact UStep.of_quiet [] (by simp) rfl rfl
